@@ -13,13 +13,20 @@ from ..pyvc.engine import Contract, Layout
 FILE = "hypergraphx/representations/projections.py"
 _PT = T.Pair(T.INT, T.INT)
 NXFIELDS = {"_gv": "Set[Int]", "_ge": "Set[Pair[Int,Int]]", "_gw": "Map[Pair[Int,Int],Real]"}
+def _pk(eng, g, a, b):
+    vt = g.fields["_gv"].ty.e
+    return T.Pair(vt, vt).mk(eng.coerce(a, vt).t, eng.coerce(b, vt).t)
+
+
 NXVIEWS = {
     "GV": lambda eng, p, g: g.fields["_gv"],
-    "LINK": lambda eng, p, g, a, b: T.sv_bool(g.fields["_ge"].t[_PT.mk(eng.coerce(a, T.INT).t, eng.coerce(b, T.INT).t)]),
-    "HASW": lambda eng, p, g, a, b: T.sv_bool(g.fields["_gw"].dom[_PT.mk(eng.coerce(a, T.INT).t, eng.coerce(b, T.INT).t)]),
-    "GW": lambda eng, p, g, a, b: T.sv_real(g.fields["_gw"].val[_PT.mk(eng.coerce(a, T.INT).t, eng.coerce(b, T.INT).t)]),
+    "LINK": lambda eng, p, g, a, b: T.sv_bool(g.fields["_ge"].t[_pk(eng, g, a, b)]),
+    "HASW": lambda eng, p, g, a, b: T.sv_bool(g.fields["_gw"].dom[_pk(eng, g, a, b)]),
+    "GW": lambda eng, p, g, a, b: T.sv_real(g.fields["_gw"].val[_pk(eng, g, a, b)]),
 }
-LAYOUTS = [Layout("NxGraph", NXFIELDS, views=NXVIEWS), Layout("NxDiGraph", NXFIELDS, views=NXVIEWS)]
+NXSFIELDS = {"_gv": "Set[VName]", "_ge": "Set[Pair[VName,VName]]", "_gw": "Map[Pair[VName,VName],Real]"}
+LAYOUTS = [Layout("NxGraph", NXFIELDS, views=NXVIEWS), Layout("NxDiGraph", NXFIELDS, views=NXVIEWS),
+           Layout("NxGraphS", NXSFIELDS, views=NXVIEWS)]       # a graph whose vertices are the vertex names of the bipartite projection
 
 # position of a member in a tuple (k.index(n)): a specification function, scoped to the queries that mention it
 TIDX = z3.Function("tidx", T.TupS, T.I, T.I)
@@ -38,7 +45,7 @@ TH.EXTRA["tat_inj (a duplicate-free tuple holds different elements at different 
 NXVIEWS["jacc"] = lambda eng, p, g, k1, k2: T.sv_real(TH.sjaccard(TH.tset(k1.t), TH.tset(k2.t)))
 NXVIEWS["common"] = lambda eng, p, g, k1, k2: T.sv_int(TH.scommon(TH.tset(k1.t), TH.tset(k2.t)))
 def _cent(kind):
-    return lambda eng, p, g: T.sv_map(T.INT, T.REAL, g.fields["_gv"].t, TH.nx_centrality(kind, g.ty.cls)(
+    return lambda eng, p, g: T.sv_map(g.fields["_gv"].ty.e, T.REAL, g.fields["_gv"].t, TH.nx_centrality(kind, g.ty.cls, g.fields["_gv"].ty.e)(
         g.fields["_gv"].t, g.fields["_ge"].t, g.fields["_gw"].dom, g.fields["_gw"].val))
 
 
@@ -237,3 +244,81 @@ def _s_contract(name, view):
 
 
 CONTRACTS += [_s_contract("s_betweenness", "BC"), _s_contract("s_closeness", "CC")]
+
+# ------------------------------------------------------------------ bipartite projection (C10) and the node centralities on it (C20)
+# One vertex "N<i>" per node and one "E<j>" per hyperedge (vertex names are the datatype of §3.3); the returned table maps every vertex back to
+# its node / hyperedge, bijectively; a hyperedge vertex and a node vertex are linked exactly when the node belongs to the hyperedge; there is
+# no other link. `bipartite=` attributes are not modelled.
+def _bip(t, g, cur=None):
+    """link clause over the table t and graph g; with cur (name of the hyperedge being processed) its links reach the first _j2 nodes only"""
+    def one(x, y):
+        base = f"(is_vE({x}) and is_vN({y}) and {x} in {t} and {y} in {t} and nodeof({t}[{y}]) in edgeof({t}[{x}])"
+        if cur is not None:
+            base += f" and ({x} != {cur} or inprefix(nodeof({t}[{y}]), edge, _j2))"
+        return base + ")"
+    return f"all(LINK({g}, x, y) == ({one('x', 'y')} or {one('y', 'x')}) for x in VName for y in VName)"
+
+
+def _names(nv, done_n, done_e, ne):
+    """table clauses: node names below nv for the nodes satisfying done_n(n), hyperedge names below ne for the hyperedges satisfying done_e(k)"""
+    return {
+        "n_dom": f"all((vN(i) in id_to_obj) == (0 <= i and i < {nv}) for i in Int)",
+        "n_val": f"all(implies(0 <= i and i < {nv}, is_onode(id_to_obj[vN(i)]) and {done_n('nodeof(id_to_obj[vN(i)])')} "
+                 f"and onode(nodeof(id_to_obj[vN(i)])) in obj_to_id and obj_to_id[id_to_obj[vN(i)]] == vN(i)) for i in Int)",
+        "n_inv": f"all(implies({done_n('n')}, onode(n) in obj_to_id and is_vN(obj_to_id[onode(n)]) and 0 <= vidx(obj_to_id[onode(n)]) "
+                 f"and vidx(obj_to_id[onode(n)]) < {nv} and id_to_obj[obj_to_id[onode(n)]] == onode(n)) for n in Node)",
+        "e_dom": f"all((vE(i) in id_to_obj) == (0 <= i and i < {ne}) for i in Int)",
+        "e_val": f"all(implies(0 <= i and i < {ne}, is_oedge(id_to_obj[vE(i)]) and {done_e('edgeof(id_to_obj[vE(i)])')} "
+                 f"and oedge(edgeof(id_to_obj[vE(i)])) in obj_to_id and obj_to_id[id_to_obj[vE(i)]] == vE(i)) for i in Int)",
+        "e_inv": f"all(implies({done_e('k')}, oedge(k) in obj_to_id and is_vE(obj_to_id[oedge(k)]) and 0 <= vidx(obj_to_id[oedge(k)]) "
+                 f"and vidx(obj_to_id[oedge(k)]) < {ne} and id_to_obj[obj_to_id[oedge(k)]] == oedge(k)) for k in Tuple)",
+        "o2i_dom": f"all((o in obj_to_id) == ((is_onode(o) and {done_n('nodeof(o)')}) or (is_oedge(o) and {done_e('edgeof(o)')})) for o in VObj)",
+        "vertices": "all((x in GV(g)) == (x in id_to_obj) for x in VName)",
+        "noweights": "all(not HASW(g, x, y) for x in VName for y in VName)",
+    }
+
+
+TB = "result[1]"
+CV, CE = "card(V(h))", "card(E(h))"
+L0 = {**_names("idx", lambda n: f"count(_done0, {n}) >= 1", lambda k: "False", "0"), "idx": "idx == len(_done0)",
+      "links": "all(not LINK(g, x, y) for x in VName for y in VName)"}
+L1 = {**_names(CV, lambda n: f"{n} in V(h)", lambda k: f"count(_done1, {k}) >= 1", "idx"), "idx": "idx == len(_done1)", "links": _bip("id_to_obj", "g")}
+L2 = {**_names(CV, lambda n: f"{n} in V(h)", lambda k: f"(count(_done1, {k}) >= 1 or {k} == edge)", "idx"), "idx": "idx == len(_done1) + 1",
+      "edge": "strict(edge) and edge in E(h) and count(_done1, edge) == 0",
+      "cur": "oedge(edge) in obj_to_id and obj_to_id[oedge(edge)] == vE(idx - 1)",
+      "links": _bip("id_to_obj", "g", cur="vE(idx - 1)")}
+CONTRACTS += [
+    Contract("bipartite_projection", FILE, ["bipartite_projection"], properties=["C10", "C20"], options={"nx_strings"},
+             params={"h": "Obj[Hypergraph]"}, result="Multi[Obj[NxGraphS],Map[VName,VObj]]", pure=True,
+             locals={"id_to_obj": "Map[VName,VObj]", "obj_to_id": "Map[VObj,VName]"},
+             requires={"wf": "wf(h)"},
+             ensures={"node_names": f"all((vN(i) in {TB}) == (0 <= i and i < {CV}) for i in Int) and "
+                                    f"all(implies(0 <= i and i < {CV}, is_onode({TB}[vN(i)]) and nodeof({TB}[vN(i)]) in V(h)) for i in Int)",
+                      "node_names_injective": f"all(implies(0 <= i and i < {CV} and 0 <= j and j < {CV} and {TB}[vN(i)] == {TB}[vN(j)], i == j) for i in Int for j in Int)",
+                      "node_names_onto": f"all(any(0 <= i and i < {CV} and {TB}[vN(i)] == onode(n) for i in Int) for n in V(h))",
+                      "edge_names": f"all((vE(i) in {TB}) == (0 <= i and i < {CE}) for i in Int) and "
+                                    f"all(implies(0 <= i and i < {CE}, is_oedge({TB}[vE(i)]) and edgeof({TB}[vE(i)]) in E(h)) for i in Int)",
+                      "edge_names_injective": f"all(implies(0 <= i and i < {CE} and 0 <= j and j < {CE} and {TB}[vE(i)] == {TB}[vE(j)], i == j) for i in Int for j in Int)",
+                      "edge_names_onto": f"all(any(0 <= i and i < {CE} and {TB}[vE(i)] == oedge(k) for i in Int) for k in E(h))",
+                      "vertices": f"all((x in GV(result[0])) == (x in {TB}) for x in VName)",
+                      "links": _bip(TB, "result[0]")},
+             invariants={0: L0, 1: L1, 2: L2}),
+]
+
+# node versions: one value per node, namely networkx's centrality of the node's vertex "N<i>" in the bipartite projection (hyperedge vertices
+# are filtered out by the letter E in their names); stated for Hypergraph arguments
+LGB, IDB = 'local("lg")', 'local("id_to_edge")'
+
+
+def _sn_contract(name, view):
+    return Contract(name, SC, [name], properties=["C20"],
+                    params={"H": "Obj[Hypergraph]"}, result="Map[VObj,Real]", pure=True,
+                    requires={"wf": "wf(H)"},
+                    ensures={"one_value_per_node": "all((o in result) == (is_onode(o) and nodeof(o) in V(H)) for o in VObj)",
+                             "value": f"all(implies(0 <= i and i < card(V(H)), result[{IDB}[vN(i)]] == {view}({LGB})[vN(i)]) for i in Int)",
+                             "names": f"all((vN(i) in {IDB}) == (0 <= i and i < card(V(H))) for i in Int) and "
+                                      f"all(implies(0 <= i and i < card(V(H)), is_onode({IDB}[vN(i)]) and nodeof({IDB}[vN(i)]) in V(H)) for i in Int)",
+                             "graph": _bip(IDB, LGB)})
+
+
+CONTRACTS += [_sn_contract("s_betweenness_nodes", "BC"), _sn_contract("s_closeness_nodes", "CC")]
